@@ -24,6 +24,10 @@ type Dumper struct {
 	// RenameIDs renames strings that look like random upload IDs (64 hex
 	// characters) to ID<n> in order of first appearance.
 	RenameIDs bool
+	// AutoIDs names every 64-hex string that is not a sha256 digest in order of
+	// first appearance (roots must be added in a deterministic order).
+	AutoIDs bool
+	blank   bool // shape mode: every ID-like string is shown as ID?
 }
 
 func NewDumper() *Dumper {
@@ -36,13 +40,39 @@ func (d *Dumper) str(s string) string {
 	if !d.RenameIDs || len(s) < 64 {
 		return s
 	}
-	return hexID.ReplaceAllStringFunc(s, func(m string) string {
-		// digests are preceded by "sha256:"; those are content-derived, keep them
-		if n, ok := d.names[m]; ok {
-			return n
+	idx := hexID.FindAllStringIndex(s, -1)
+	if idx == nil {
+		return s
+	}
+	var sb strings.Builder
+	last := 0
+	for _, m := range idx {
+		sb.WriteString(s[last:m[0]])
+		last = m[1]
+		tok := s[m[0]:m[1]]
+		// digests are content-derived: keep them
+		if m[0] >= 7 && s[m[0]-7:m[0]] == "sha256:" {
+			sb.WriteString(tok)
+			continue
 		}
-		return m
-	})
+		if d.blank {
+			sb.WriteString("ID?")
+			continue
+		}
+		n, ok := d.names[tok]
+		if !ok && d.AutoIDs {
+			n = fmt.Sprintf("ID%d", len(d.names)+1)
+			d.names[tok] = n
+			ok = true
+		}
+		if ok {
+			sb.WriteString(n)
+		} else {
+			sb.WriteString(tok)
+		}
+	}
+	sb.WriteString(s[last:])
+	return sb.String()
 }
 
 // NameID registers an opaque random string to be shown as ID<n>.
@@ -161,11 +191,34 @@ func (d *Dumper) value(v reflect.Value, depth int) {
 		}
 		type ent struct{ k, v string }
 		var ents []ent
+		if d.AutoIDs && t.Key().Kind() == reflect.String {
+			// Random IDs used as map keys: name the still unnamed ones in the order of the
+			// shape of their values (IDs blanked), so that naming does not depend on the
+			// random key order. Entries with equal shapes are interchangeable.
+			type pend struct{ key, shape string }
+			var ps []pend
+			it0 := v.MapRange()
+			for it0.Next() {
+				k := it0.Key().String()
+				if len(k) == 64 && hexID.MatchString(k) {
+					if _, ok := d.names[k]; !ok {
+						sd := &Dumper{ptrs: map[unsafe.Pointer]int{}, names: map[string]string{}, SkipTypes: d.SkipTypes, RenameIDs: true, blank: true}
+						sd.value(it0.Value(), depth+1)
+						ps = append(ps, pend{k, sd.sb.String()})
+					}
+				}
+			}
+			sort.Slice(ps, func(i, j int) bool { return ps[i].shape < ps[j].shape })
+			for _, p := range ps {
+				d.names[p.key] = fmt.Sprintf("ID%d", len(d.names)+1)
+			}
+		}
 		it := v.MapRange()
 		for it.Next() {
 			kd := &Dumper{ptrs: d.ptrs, names: d.names, SkipTypes: d.SkipTypes, RenameIDs: d.RenameIDs}
 			kd.value(it.Key(), depth+1)
 			ents = append(ents, ent{k: kd.sb.String()})
+			_ = d.AutoIDs // map keys are never auto-named: their order would depend on the random value
 		}
 		// Values are dumped after sorting keys so that pointer numbering
 		// follows the canonical key order.
